@@ -424,7 +424,8 @@ C11_Written ==
 Requeued(e) == \E i \in DOMAIN e.queue : e.queue[i].op = "AddRateLimited"
 AfterOf(e)  == { e.queue[i].d : i \in { j \in DOMAIN e.queue : e.queue[j].op = "AddAfter" } }
 C12_NoPanic ==
-  IsEv("SyncEnd") => (E.result # "panic" \/ Report("C12", "C12_NoPanic", <<E.msg>>))
+  /\ IsEv("SyncEnd") => (E.result # "panic" \/ Report("C12", "C12_NoPanic", <<E.msg>>))
+  /\ IsEv("Panic") => Report("C12", "C12_NoPanic", <<"process terminated", E.msg>>)
 C12_ErrorRequeues ==
   (IsEv("SyncEnd") /\ E.a \in DOMAIN ctx /\ ctx[E.a].active /\ E.result # "panic" /\ (ctx[E.a].nonBenign \/ (ctx[E.a].hookFail /\ ~ctx[E.a].hook429)))
   => \/ (E.result = "error" /\ Requeued(E))
@@ -455,12 +456,17 @@ C12_Recovers ==
 \* C13 -- no hook response can crash metacontroller or cause writes
 \* =======================================================================================
 C13_NoPanic ==
-  IsEv("SyncEnd") => (E.result # "panic" \/ Report("C13", "C13_NoPanic", <<E.msg>>))
+  /\ IsEv("SyncEnd") => (E.result # "panic" \/ Report("C13", "C13_NoPanic", <<E.msg>>))
+  \* a panic on a goroutine the sync spawned cannot be recovered by the worker: the process died
+  /\ IsEv("Panic") => Report("C13", "C13_NoPanic", <<"process terminated", E.msg>>)
 \* the sync failed although no request failed and the hook answered 200: the response was
 \* rejected -- then nothing may have been written on the strength of it
 C13_RejectedNoWrites ==
   (IsEv("SyncEnd") /\ E.a \in DOMAIN ctx /\ ctx[E.a].active /\ E.result = "error" /\ ctx[E.a].failedReqs = <<>>
-     /\ ctx[E.a].nHooks > 0 /\ ~ctx[E.a].hookFail /\ ctx[E.a].faults = 0)
+     /\ ctx[E.a].nHooks > 0 /\ ~ctx[E.a].hookFail /\ ctx[E.a].faults = 0
+     \* an accepted response one of whose children cannot be reconciled (unknown kind, ...) is a failure of
+     \* that child (C12: one bad child blocks nothing), not a rejected response
+     /\ E.errPhase # "manage")
   => (ctx[E.a].childWritesAfterHook = 0 \/ Report("C13", "C13_RejectedNoWrites", <<"child writes", ctx[E.a].childWritesAfterHook, E.msg>>))
 C13_HookErrNoWrites ==
   (ReqE /\ IsChildReq(E) /\ E.verb \in WriteVerbs /\ C.nHooks > 0 /\ C.hookFail /\ ~IsAdoption(E, C) /\ ~IsRelease(E, C))
